@@ -26,6 +26,26 @@ TEXT = {
    text='For every function of the package: no write to module or class state, no mutation of module/class level mutables, no mutated (or escaping-and-mutated) mutable default argument, no result cache, time/random only in the three documented places, no set iteration order reaching a value, no reflection. One obligation per (rule, module); findings outside a reasoned allow-list refute it; hash-order findings are replayed natively under different PYTHONHASHSEED.',
    note='Syntactic and name based: sound only in the absence of reflection (checked) and conservative (false alarms possible, handled by the reasoned allow-list in contracts/frames.py). Does not prove semantic independence of histories; it proves the absence of the mechanisms by which one call could influence another.',
    ref='5 C18'),
+ 'C01': dict(level='proof', technique='contract-based deductive verification (pyvc) of Segment parse/format and the reader loop; bounded native differential for the raw tokeniser',
+   text='Segment.__init__ is proved to split a segment text only at the given element/component separators (never inside an ISA) into exactly the character-for-character values (all texts up to 6 (quick) / 8 (thorough) characters, any characters, any one-character delimiters); Segment.format is proved equal to the trimmed joined text on all segment shapes up to 2/3 elements x 2 components with unconstrained values; X12Reader.__iter__ is proved to raise nothing but the documented X12Error for ANY raw line. Chunk independence, source kinds and the format/read round trip are covered by a BOUNDED native differential against an independent tokeniser.',
+   note='RawX12File.__init__/__iter__ (nested loops over strings of unknown length behind an arbitrary stream) are NOT under a deductive contract: bounded stand-in only (fixtures x delimiters x line ends x perturbations incl. >8 KiB segments and empty segments x read chunkings). Segment parse proof is bounded in text length, format proof bounded in shape. The Segment constructor is used abstractly by the reader loop (assumed total).',
+   ref='5 C01'),
+ 'C15': dict(level='proof', technique='contract-based deductive verification (pyvc): ghost error log, opaque spec functions, callee contracts from C13',
+   text='element_if.is_valid (with _is_valid_code and _error inlined) is proved, for every element definition (usage, data element type/min/max, inline code list, external code set, pattern, position in a composite), every value of any length and every qualifier-selected format list of up to two entries, to report exactly the error codes the definition implies (1, 10, 4, 5, 6, 7, 8, 9) and to return False exactly when it reported one; contains_control_character is proved against the control-character set. Callers use IsValidDataType through its C13 contract.',
+   note='Known finding K4 (a value with a control character gets code 6 only) excluded and listed. composite_if.is_valid and segment_if.is_valid are covered by a BOUNDED native stand-in on every segment node of shipped maps, not proved. Trusted: data element table and external code sets as deterministic functions (defined-ness: ground C16), str.replace(c, \'\') length/count facts, rstrip() as uninterpreted function, compiled element patterns abstract.',
+   ref='5 C15'),
+ 'C17': dict(level='proof', technique='contract-based deductive verification (pyvc) with an exact ordered-choice model of the backtracking regex engine; exhaustive ground evaluation over shipped node paths',
+   text='X12Path.__init__ is proved, for every text of up to 10 (quick) / 12 (thorough) characters, to print back exactly the well-formed paths of the documented grammar, to yield exactly the designator parts, and to raise X12PathError exactly for a qualifier / element index without segment id after loop ids (regex capture groups modelled exactly, no assumption about which match is returned). Segment.get_value and Segment.set are proved against the view laws (read-after-write, padding with empty positions, every other position unchanged, foreign segment id refused) on real Segment/Composite/Element object graphs of bounded shape. Every loop/segment path of every shipped map round-trips (ground, exhaustive).',
+   note='Bounded in text length (paths) and in shape (segments up to 2/3 elements x 2 components, designators up to element 05 / component 4); values, delimiters and characters unconstrained. join-after-split identity of str.split/str.join is the trusted lemma L1/L2.',
+   ref='5 C17'),
+ 'C19': dict(level='proof', technique='contract-based verification of the escaping function (SMT for len<=3 + kernel-checked Lean lemma for all lengths) and syntactic taint obligations on every write of the report',
+   text='escape_html_chars is proved to be the character code & -> &amp;, blank -> &nbsp;, > -> &gt;, < -> &lt; (SMT, all strings up to 3 characters; Lean: the replace chain of the source is flatMap of that code for all lengths, its image holds no raw < or >). Every hole of every fd.write in error_html.py is a literal, an integer conversion or a value that went through escape_html_chars (one obligation per write site).',
+   note='The replace chain is re-extracted from the source each run and compared with the chain the Lean theorem is about; python str.replace(one char) == flatMap is the trusted transcription. Taint analysis is syntactic. Document-level completeness (every segment once, errors next to their segment) is a BOUNDED native stand-in on fixtures with injected faults.',
+   ref='5 C19'),
+ 'C08': dict(level='proof', technique='contract-based verification of the XML escaping functions (SMT + Lean); bounded native round trip',
+   text='XMLWriter._escape_cont and _escape_attr are proved to be the XML character codes (SMT up to 3 characters, Lean lemma for all lengths). Loop nesting of x12xml_simple.seg and the XML->X12 inverse are covered by a BOUNDED native stand-in on fixtures (well-formedness, fresh element per repeated loop, segment-for-segment round trip with markup characters in the data).',
+   note='Only the escaping layer is proved; x12xml_simple.seg stack discipline and xmlx12_simple.get_segment are not under contract (bounded stand-in). ElementTree is assumed to invert the escapes.',
+   ref='5 C08'),
 }
 NA = [
   {"property_id": "C02", "reason": "completeness of the map walker over the language generated by each map: no per-function contract within reach states 'conformant document' without restating the walker (DESIGN.md section 6)"},
